@@ -62,10 +62,11 @@ def run(ctx):
             # what the FIRST `Connection` header says (its look-up stops at the first match), so the request builder may not take the
             # decision from a later one (`Connection: keep-alive` + `Connection: upgrade` would hand out the raw reader of a connection
             # that goes on being parsed)
-            many = [r for r in FM.rows if sum(1 for a_, v_ in r["atoms"] if a_ == ("present", "Connection") and v_) > 1]
+            # (what counts is whose *value* is examined: a scan may well compare the name of every header)
+            many = [r for r in FM.rows if sum(1 for a_, v_ in r["atoms"] if a_[0] == "upgrade") > 1]
             ctx.ob("C09.1", "%s|upgrade-read-from-first-connection-header" % nr.id,
                    "the upgrade decision looks at the first `Connection` header only, like the parser's decision whether the connection goes on", not many, site_fn[(bb, ty)].loc(bb),
-                   None if not many else "%d paths of the request builder examine a second `Connection` header" % len(many))
+                   None if not many else "%d paths of the request builder examine the value of a second `Connection` header" % len(many))
             continue
         n_wrapping += 1
         # drop glue of this reader type: find a user Drop above the shared reader that reads it
